@@ -61,7 +61,7 @@ Qed.
 Definition kind_of_secondary (s : secondary) : tok_kind :=
   match s with
   | S_Value | S_Identifier => KValue
-  | S_BinaryLeftToRight | S_BinaryRightToLeft | S_OptionalBinaryLeftToRight => KBinary
+  | S_BinaryLeftToRight | S_BinaryRightToLeft | S_OptionalBinaryLeftToRight | S_Subexpression => KBinary
   | S_UnaryPrefix => KPrefix
   | S_UnarySuffix => KSuffix
   | S_Whitespace => KSpace
